@@ -12,13 +12,18 @@
                    decoded from shuffled input or holding two unpositioned fields in reverse order;
                  - every present trait has a _pos entry; _fields is sorted and holds exactly the
                    present tags; _groups is sorted; no pass-through bytes (_unknown empty);
-     target_ok   the target is a fresh object of the same class: nothing present, no field, empty
-                 pre-created groups (what create_group g true gives when g's static table has no
-                 present bit);
-     groups      the target has (empty) every group the source holds under a group tag ("a deep
-                 constructed target message is required"); every non-empty group of the source
-                 belongs to a present group field, the target knows its nested class, and every
-                 element is src_ok against a fresh deep element of that class (recursively).
+     target_ok   the target is a fresh object of the same class: nothing present, no field, and every
+                 group object it HAS is empty.  That covers a deep-constructed target (create_group g
+                 true: all nested groups pre-created), a shallow one (create_group g false: no group
+                 object at all) and anything between (FIX44 header: deep, but NoHops not pre-created);
+                 the _groups map is sorted by tag (std::map); no group object is required to exist
+                 (copy_legal creates a missing one, move_legal replaces an existing one and adds a
+                 missing one);
+     groups      the target's class knows the nested class of every group the source holds under a
+                 group tag (create_nested_group; the group OBJECT need not exist in the target: since
+                 /repo 198b3ea copy_legal creates it); every non-empty group of the source belongs to a
+                 present group field, and every element is src_ok against a fresh deep element of the
+                 nested class (recursively).
    part_ok s t0  the same for a header / trailer, whose fresh target t0 already holds the
                  constructor's fields (8, 9, 35 / 10): those must be present in the source as well. *)
 From Coq Require Import NArith ZArith List Bool.
@@ -88,6 +93,7 @@ Definition target_ok (t0 : mbase) : bool :=
   forallb (fun tr => negb (t_present tr)) (mb_fp t0) &&
   is_nil (mb_fields t0) && is_nil (mb_pos t0) &&
   forallb (fun g => is_nil (snd g)) (mb_groups t0) &&
+  strictN (map fst (mb_groups t0)) &&
   is_nil (mb_unknown t0).
 
 (* group f of the source is transferred: its count field is present and a group field *)
@@ -110,14 +116,14 @@ Fixpoint src_ok (s : mbase) {struct s} : mbase -> bool :=
     fun t0 =>
       local_ok s t0 && target_ok t0 &&
       forallb (fun g =>
-                 (negb (group_in fp (fst g)) || is_some (map_find (fst g) (mb_groups t0))) &&
+                 (negb (group_in fp (fst g)) || is_some (find_sub (mb_subs t0) (fst g))) &&
                  match snd g with
                  | [] => true
                  | oks =>
                    group_owned fp (fst g) &&
-                   match map_find (fst g) (mb_groups t0), find_sub (mb_subs t0) (fst g) with
-                   | Some _, Some sg => forallb (fun ok => ok (create_group sg true)) oks
-                   | _, _ => false
+                   match find_sub (mb_subs t0) (fst g) with
+                   | Some sg => forallb (fun ok => ok (create_group sg true)) oks
+                   | None => false
                    end
                  end) sub_ok
   end.
@@ -135,19 +141,20 @@ Definition part_target_ok (s t0 : mbase) : bool :=
   strictN (map fst (mb_fields t0)) &&
   forallb (fun e => present_in (mb_fp t0) (fst e)) (mb_fields t0) &&
   forallb (fun g => is_nil (snd g)) (mb_groups t0) &&
+  strictN (map fst (mb_groups t0)) &&
   is_nil (mb_unknown t0).
 
 Definition part_ok (s t0 : mbase) : bool :=
   local_ok s t0 && part_target_ok s t0 &&
   forallb (fun g =>
-             (negb (group_in (mb_fp s) (fst g)) || is_some (map_find (fst g) (mb_groups t0))) &&
+             (negb (group_in (mb_fp s) (fst g)) || is_some (find_sub (mb_subs t0) (fst g))) &&
              match snd g with
              | [] => true
              | els =>
                group_owned (mb_fp s) (fst g) && negb (present_in (mb_fp t0) (fst g)) &&
-               match map_find (fst g) (mb_groups t0), find_sub (mb_subs t0) (fst g) with
-               | Some _, Some sg => forallb (fun e => src_ok e (create_group sg true)) els
-               | _, _ => false
+               match find_sub (mb_subs t0) (fst g) with
+               | Some sg => forallb (fun e => src_ok e (create_group sg true)) els
+               | None => false
                end
              end) (mb_groups s).
 
@@ -174,12 +181,10 @@ Definition clone_ok (c : ctx) (md : msgdef) (m : message) : bool :=
 
 (* ------------------------------------------------------------------ move_legal *)
 (* no recursion: the group elements are handed over as they are.  Beyond local_ok / target_ok:
-   every present group field has its _groups entry (a message decoded from "NoX=0" has none:
-   move_legal then dereferences _groups.end()), and every non-empty group belongs to a present
-   group field (otherwise it stays behind). *)
+   every non-empty group belongs to a present group field (otherwise it stays behind).  (A present
+   group field without _groups entry -- a message decoded from "NoX=0" -- is fine since /repo 1eb9e00.) *)
 Definition move_ok (s t0 : mbase) : bool :=
   local_ok s t0 && target_ok t0 &&
-  forallb (fun tr => negb (t_present tr && t_group tr) || is_some (map_find (t_fnum tr) (mb_groups s))) (mb_fp s) &&
   forallb (fun g => is_nil (snd g) || group_owned (mb_fp s) (fst g)) (mb_groups s).
 
 (* ------------------------------------------------------------------ the observed object of a model object *)
